@@ -38,7 +38,7 @@ CLAIMED.update({
 })
 
 CLAIMED.update({
- "C13": (MC, "TLC trace validation against RtmpMsg.tla (type ids, body layouts, event and limit codes from RTMP 1.0) with AMF0 bodies read by the TLA+ reference decoder; both directions; all 256 type ids",
+ "C13": (MC, "TLC: MC_Msg; Gen_Msg: TLC-enumerated universe of well-formed messages whose reference bodies are replayed on the real conversion in both directions (S2); trace validation against RtmpMsg.tla (type ids, body layouts, event and limit codes from RTMP 1.0) with AMF0 bodies read by the TLA+ reference decoder; both directions; all 256 type ids",
          "Every recorded conversion is judged by the specification: the type id and body must be the layout the protocol document prescribes and must convert back to an equal message; foreign reference bodies (incl. ids 15/17) must decode to what they denote; unknown ids pass through; chunk sizes above 2^31-1 are rejected in both directions.",
          "RtmpMsg.tla/Amf0.tla as faithful readings of the specifications; TLC; harness logger", "5 C13"),
  "C09": (MC, "TLC: MC_Server explores every history of ServerSession.tla over a small alphabet with history variables restating C09 (no depth bound); Gen_Server prints every transition and a transition-covering set of paths is replayed on the real ServerSession (S2); Trace_Server replays these and random histories through the same SrvStep function",
